@@ -1,0 +1,7 @@
+//go:build !verif
+// +build !verif
+
+package rsec16
+
+// verifStep is a no-op unless built with the "verif" build tag.
+func verifStep(row, input, dataStart, dataEnd int) {}
